@@ -1,8 +1,43 @@
 import XmppModel.Prelude.Hex
-/-! Driver module for C09: `handle args` answers one protocol line (fields after the
-property id); `none` means the line is not understood (`!bad-op`). -/
-namespace XmppModel.Driver.C09
+import XmppModel.Model.Skeleton
+/-! Driver for C09 (see harness/c09 for the line protocol).
 
-def handle (_args : List String) : Option String := none
+    flagged <skeleton>                 -> ok | flagged:<site,…>      the checker's verdict
+    exec <skeleton> <oracle> <fuel>    -> norm | brk | cont | ret | stuck | panic:<site>
+    panicsite <skeleton> <site>        -> flagged | missed           is the site of an observed panic flagged?
+    serve <input> / helper <name> <type> <reply> -> ok                the model's prediction for every input: the
+                                          theorems C09_library_never_panics and C09_serve_terminates (Props/C09.lean)
+                                          say no execution panics and Serve returns; the harness observes ok|PANIC|STALL
+-/
+namespace XmppModel.Driver.C09
+open XmppModel XmppModel.Skeleton
+
+def showOut : Out → String
+  | .norm _ => "norm" | .brk _ => "brk" | .cont _ => "cont" | .ret => "ret" | .stuck => "stuck"
+  | .panic s => s!"panic:{s}"
+
+def handle (args : List String) : Option String :=
+  match args with
+  | ["flagged", sk] => do
+    let s ← decode sk
+    let fl := flagged s
+    pure (if fl.isEmpty then "ok" else "flagged:" ++ joinList (fl.map toString))
+  | ["exec", sk, orc, fuel] => do
+    let s ← decode sk
+    let o ← mapM? String.toNat? (splitList orc)
+    let n ← fuel.toNat?
+    pure (showOut (exec n s ⟨fun _ => .nil, o⟩))
+  | ["panicsite", sk, site] => do
+    let s ← decode sk
+    let k ← site.toNat?
+    pure (if (flagged s).contains k then "flagged" else "missed")
+  | ["serve", inp] => do
+    let _ ← hexDecode inp
+    pure "ok"
+  | ["helper", name, _typ, reply] => do
+    let _ ← hexDecode name
+    let _ ← hexDecode reply
+    pure "ok"
+  | _ => none
 
 end XmppModel.Driver.C09
